@@ -39,6 +39,8 @@ def gen_cases(tier, seed):
         k = rng.randrange(1, N)
         msg = rand_bytes(rng, rng.choice([0, 1, 32, 33, 64, 100, 200]))
         flag = [1, 2, 3, 0x81, 0x82, 0x83][i % 6]
+        if i % 9 == 4:
+            msg = msg[:-4] + flag.to_bytes(4, "little")     # a message that already ends with the bytes the flag contributes (nLockTime 1 / SIGHASH_ALL)
         pre = i % 2 == 1
         comp = i % 3 != 0
         for m in MUTS:
@@ -56,6 +58,10 @@ def gen_cases(tier, seed):
         yield "sigverify_keys", {"d": hex(rng.randrange(1, N)), "k": hex(rng.randrange(1, N)), "msg": rand_bytes(rng, 32).hex(), "flag": 1, "bit": rng.randrange(1 << 30)}
     for i in range(3 if tier == "quick" else 30):
         yield "arg_forms", {"d": hex(rng.randrange(1, N)), "k": hex(rng.randrange(1, N)), "msg": rand_bytes(rng, 40).hex()}
+    for i, tag in enumerate([0x30, 0x31, 0x02, 0x03, 0x04, 0x05, 0x06, 0x0C] if tier == "quick" else [0x30, 0x31, 0x02, 0x03, 0x04, 0x05, 0x06, 0x0C, 0x13, 0x16, 0x17, 0x30, 0x30]):
+        yield "sigverify_structured", {"d": hex(rng.randrange(1, N)), "k": hex(rng.randrange(1, N)), "msg": rand_bytes(rng, 32).hex(), "tag": tag, "which": "s", "bit": rng.randrange(1 << 30)}
+    for i in range(1 if tier == "quick" else 6):
+        yield "sigverify_structured", {"d": hex(rng.randrange(1, N)), "k": hex(rng.randrange(1, N)), "msg": rand_bytes(rng, 32).hex(), "tag": 0x30, "which": "r", "bit": rng.randrange(1 << 30)}
     # direct ecmath.verify with digests >= n and boundary values
     for i in range(60 if tier == "quick" else 800):
         d = rng.randrange(1, N)
@@ -85,7 +91,7 @@ def gen_cases(tier, seed):
 
 def required(tier):
     return {"sigverify.decided": 1500, "sigverify.expected_accept": 150, "sigverify.expected_reject": 1000,
-            "mut.infinity": 20, "keys.class.offcurve_pseudo_root": 10, "keys.class.coord_plus_p": 100, "keys.class.valid": 10, "sigverify.via_cli": 80, "mut.high_s": 50, "mut.pub_65_with_02": 50, "ecverify.decided": 50, "ecverify.offcurve_crafted": 5,
+            "mut.infinity": 20, "keys.class.offcurve_pseudo_root": 10, "keys.class.coord_plus_p": 100, "keys.class.valid": 10, "sigverify.via_cli": 80, "mut.high_s": 50, "mut.pub_65_with_02": 50, "ecverify.decided": 50, "structured.s_asn1_lookalike": 6, "ecverify.offcurve_crafted": 5,
             "lows.decided": 60, "lows.class.short_complement": 20, "small.decided": 100000,
             "small.expected_accept": 100, "small.class.x_ge_n": 10, "small.class.R_infinity": 100}
 
@@ -271,6 +277,60 @@ def run_case(kind, params, ctx):
             ctx.violation(f"accepts-invalid/{mut}/{_pubclass(pub)}", f"sig_verify -> OK but equation/key invalid: sig={sig.hex()} pub={pub.hex()} msg={vmsg.hex()[:80]} pre={pre}")
         if (not lib_ok) and expected:
             ctx.violation(f"rejects-valid/{mut}/{'pre' if pre else 'plain'}", f"sig_verify -> {out!r} for a tuple satisfying the equation: sig={sig.hex()} pub={pub.hex()} msg={vmsg.hex()[:80]} pre={pre}")
+        return
+    if kind == "sigverify_structured":
+        # signatures whose s (or r) bytes LOOK LIKE the container's own framing: an ASN.1 tag and a fitting length at the start of the
+        # integer's content (30 1e = "a SEQUENCE of 30 bytes") - the key is solved from a chosen s, r is found by walking the nonce
+        d0, k = int(params["d"], 16), int(params["k"], 16)
+        msg = bytes.fromhex(params["msg"])
+        zz = int.from_bytes(h256(msg + (1).to_bytes(4, "little")), "big")
+        rr = rng_for("C02st", params["bit"])
+        tag = params["tag"]
+        if params["which"] == "s":
+            s_t = int.from_bytes(bytes([tag, 0x1E]) + rand_bytes(rr, 30), "big")
+            d = recdsa.key_for_s(k, zz % N, s_t)
+            if not d:
+                return
+            r, s_ = recdsa.sign_with_k(d, zz % N, k)
+            if s_ != s_t:
+                ctx.oracle_error("key_for_s did not produce the chosen s")
+                return
+        else:
+            # r = x(kG) with content bytes tag 1e ..: ~2^-16 per nonce; affine steps k, k+1, ...
+            G = secp.pub(1)
+            R = secp.pub(k)
+            for _ in range(400000):
+                if R[0] >> 240 == (tag << 8 | 0x1E):
+                    break
+                k += 1
+                R = secp.SECP.add(R, G)
+            else:
+                ctx.count("structured.r_grind_failed")
+                return
+            d = d0
+            r, s_ = recdsa.sign_with_k(d, zz % N, k)
+            s_ = min(s_, N - s_)
+        ctx.count(f"structured.{params['which']}_asn1_lookalike")
+        ctx.nontrivial()
+        pub = secp.sec1_encode(secp.pub(d), True)
+        for s_use, cls in ((s_, "low"), (N - s_, "high")):
+            sig = rder.encode(r, s_use) + b"\x01"
+            try:
+                out = bu.sig_verify(sig, pub, msg)
+            except ContractViolation:
+                raise
+            except Exception as e:
+                out = f"{type(e).__name__}: {e}"
+            if out != "OK":
+                ctx.violation(f"rejects-valid/asn1-lookalike-{params['which']}/{cls}-s", f"sig_verify -> {out!r} for r={r:#x} s={s_use:#x} (equation holds)")
+        try:
+            low = bytes(bu.ensure_sig_low_s(rder.encode(r, N - s_)))
+            if rder.parse_strict(low) != (r, s_):
+                ctx.violation(f"lows/wrong/asn1-lookalike-{params['which']}", f"ensure_sig_low_s -> {low.hex()}")
+        except ContractViolation:
+            raise
+        except Exception as e:
+            ctx.violation(f"lows/raises/asn1-lookalike-{params['which']}", f"{type(e).__name__}: {e}")
         return
     if kind == "sigverify_keys":
         # one genuine signature, every public-key buffer of the shared candidate list (common.sec1_candidates):
